@@ -54,10 +54,17 @@ theorem Tgt.bcastTo {c : Nat} {parts : List Part} {t : Session} (ht : t.parts = 
 theorem Tgt.mono {L L' : List Nat} {ds : List Delivery} (h : Tgt L ds) (hs : ∀ x ∈ L, x ∈ L') : Tgt L' ds :=
   fun d hd => hs _ (h d hd)
 
+theorem Tgt.abandoned {L : List Nat} (s : Session) (p : Part) (hc : p.conn ∈ L) : Tgt L (s.abandoned p) := by
+  unfold Session.abandoned
+  split
+  · exact Tgt.cons hc Tgt.nil
+  · exact Tgt.nil
+
 /-- close a goal `Tgt (c :: parts.map conn) ds` where `ds` is built from answers to `c`, gates, broadcasts -/
 macro "tgt" : tactic =>
   `(tactic| repeat (first
       | exact Tgt.nil
+      | exact Tgt.abandoned _ _ (List.mem_cons_self ..)
       | exact Tgt.bcast rfl _ _
       | exact Tgt.bcastTo rfl _ _ _
       | apply Tgt.cons (List.mem_cons_self ..)
